@@ -196,6 +196,12 @@ def req_lit(r):
 
 
 ACT_NAMES = ["read", "write", "written", "written2", "sub", "unsub"]
+KNOWN_REQUESTS = [0x02, 0x04, 0x06, 0x08, 0x0A, 0x0C, 0x0E, 0x10, 0x12, 0x16, 0x18]
+
+
+def req_opcode(op):
+    """ATTLayer.on_packet: a PDU no branch took is a request when its opcode is even with the command flag cleared"""
+    return (op & 0x41) == 0 and op != 0x1E
 
 
 def ret_lit(o):
@@ -416,7 +422,15 @@ class HistoryGen:
             return ("Confirmation",)
         if k == 98:
             return ("SignedWriteCmd", self.handle(["KValue"]), rand_bytes(rng, 13))
-        return ("UnknownOp", rng.choice([0x20, 0x20, 0x22, 0x3A, 0x14]), rand_bytes(rng, rng.randrange(0, 5)))
+        x = rng.randrange(4)
+        if x == 0:
+            # unknown opcode that is neither a request (command flag, odd opcode): ignored
+            return ("UnknownOp", rng.choice([0x21, 0x23, 0x3B, 0x60, 0x54, 0xE0]), rand_bytes(rng, rng.randrange(0, 5)))
+        if x == 1:
+            # known request whose parameters scapy cannot dissect (too short)
+            op = rng.choice(KNOWN_REQUESTS)
+            return ("UnknownOp", op, rand_bytes(rng, rng.randrange(0, 2) if op != 0x18 else 0))
+        return ("UnknownOp", rng.choice([0x20, 0x20, 0x22, 0x3A, 0x14, 0xA0, 0x00]), rand_bytes(rng, rng.randrange(0, 5)))
 
     def event(self):
         rng = self.rng
